@@ -84,10 +84,10 @@ def inventory(prog, reach):
                 kind = None
                 if c.path in UNWRAPS:
                     kind = UNWRAPS[c.path]
-                elif c.path.startswith(PANIC_FNS):
-                    kind = "explicit-panic"
                 elif c.decl_path in INDEX_DECL:
                     kind = "index"
+                elif c.path.startswith(PANIC_FNS):
+                    kind = "explicit-panic"
                 elif c.path in EXPLICIT:
                     kind = EXPLICIT[c.path]
                 elif c.doc_panics and not c.local:
